@@ -59,6 +59,9 @@ pub struct SimChain {
     numbers: HashMap<Byte32, u64>,
     // mixed into every cellbase appended by this instance
     salt: u64,
+    /// numbers of blocks that `try_append` builds with a nonce that FAILS the PoW verification
+    /// (real PoW only): what the chain of a cheating miner looks like
+    pub break_pow_at: std::collections::BTreeSet<u64>,
 }
 
 /// Everything of a new block which is not determined by its parent.
@@ -98,6 +101,7 @@ impl SimChain {
             tx_index: HashMap::new(),
             numbers: HashMap::new(),
             salt: 0,
+            break_pow_at: Default::default(),
         };
         chain
             .push_block(genesis)
@@ -232,7 +236,7 @@ impl SimChain {
                     .as_advanced_builder()
                     .nonce(nonce.pack())
                     .build();
-                if engine.verify(&header.data()) {
+                if engine.verify(&header.data()) != self.break_pow_at.contains(&number) {
                     found = Some(header);
                     break;
                 }
@@ -336,6 +340,7 @@ impl SimChain {
             tx_index: HashMap::new(),
             numbers: HashMap::new(),
             salt,
+            break_pow_at: Default::default(),
         };
         for block in &self.blocks[..=at_number as usize] {
             chain
